@@ -59,8 +59,10 @@ class HedValidator:
         error_handler.add_context_and_filter(issues)
         if error_reporter.check_for_any_errors(issues):
             return issues
-        issues += self.run_full_string_checks(hed_string)
-        error_handler.add_context_and_filter(issues)
+        # Only add context to the new issues: the earlier ones already have theirs (including the location suffix)
+        full_string_issues = self.run_full_string_checks(hed_string)
+        error_handler.add_context_and_filter(full_string_issues)
+        issues += full_string_issues
         return issues
 
     def run_basic_checks(self, hed_string, allow_placeholders):
